@@ -35,11 +35,14 @@ CLAIMED = {
 NA = {
     "C12": "schedules/data races of the Go runtime cannot be encoded as SMT inputs by this SSA encoder, and a schedule counterexample could not be replayed (DESIGN §6)",
 }
+# thorough tier registered only where it ran clean (exit 0) on the unchanged tree in this session; for the other properties the
+# tier-1 instances exist (./check <id> thorough) but some of them exceed their 20-minute budget, so only quick is registered
+THOROUGH_OK = set(open(os.path.join(ROOT, 'tools', 'thorough_ok.txt')).read().split())
 checks = []
 for pid in props:
     if pid in CLAIMED:
         ref, tech = CLAIMED[pid]
-        checks.append({
+        c = {
             "property_id": pid,
             "quick_cmd": f"./check {pid} quick",
             "thorough_cmd": f"./check {pid} thorough",
@@ -49,7 +52,10 @@ for pid in props:
             "level_claimed": {"category": "model_checking", "text": LEVEL, "design_ref": ref},
             "level_note": NOTE,
             "technique": tech,
-        })
+        }
+        if pid not in THOROUGH_OK:
+            del c["thorough_cmd"]
+        checks.append(c)
 na = []
 for pid in props:
     if pid not in CLAIMED:
